@@ -453,6 +453,8 @@ def template_of(P, meth_name):
         tree = ast.parse(textwrap.dedent(src))
     except SyntaxError as e:
         raise AnalysisError(f"{f.fq}: template does not parse: {e}")
+    from ..engine.srcmodel import _canonicalise
+    _canonicalise(tree)
     return f, node, tree
 
 
